@@ -27,7 +27,7 @@ ASSUMPTIONS = ['scikit-learn adjusted_mutual_info_score and numpy.corrcoef are t
                'tolerance 2e-5 absolute + 2e-5 relative; NaN compared as NaN (Pearson on a constant column)']
 
 HEURISTICS = ['MI', 'MI-numba-randomized', 'MI-numba-3mr', 'max-value-coverage', 'AMI', 'correlation-Pearson', 'Constant']
-MAPS = [('m1', ['', '0', '10', '9']), ('m2', ['ü', 'a b', '9', '10'])]
+MAPS = [('m1', ['', '0', '10', '9']), ('m2', ['ü', 'a b', '9', '10']), ('m3', ['7', '007', '7.0', '+7'])]   # m3: four spellings of one number are four different categories
 ATOL = 2e-5
 
 
